@@ -776,29 +776,51 @@ func (h *HttpServer) authenticate(w http.ResponseWriter, r *http.Request) *AuthC
 	}
 	auth, err := h.authenticateFunc(r)
 	if err != nil {
-		// Not a rejection: the authority could not be reached. A 401 here
-		// tells every caller to re-authenticate against a service that is
-		// merely down, and invites them to negative-cache an outage.
-		var unavailable *AuthUnavailableError
-		if errors.As(err, &unavailable) {
-			slog.Warn("authentication unavailable", "err", err, "remote_addr", r.RemoteAddr)
-			w.Header().Set("Retry-After", strconv.Itoa(unavailable.retryAfterSeconds()))
-			http.Error(w, "authentication service unavailable", http.StatusServiceUnavailable)
-			return nil
-		}
-		var failure *AuthFailure
-		rpcErr, isRpc := err.(*RpcError)
-		if asAuthFailure(err, &failure) ||
-			(isRpc && (rpcErr.Type == "ValueError" || rpcErr.Type == "PermissionError")) {
-			reason, detail := classifyAuthError(err)
-			h.writeUnauthorized(w, r, reason, detail)
-		} else {
-			slog.Error("authenticate callback error", "err", err, "remote_addr", r.RemoteAddr)
-			http.Error(w, "Internal server error", http.StatusInternalServerError)
-		}
+		h.writeAuthError(w, r, err)
 		return nil
 	}
 	return auth
+}
+
+// writeAuthError answers an authenticator error: 503 with Retry-After when
+// the authority could not be reached, the standardized 401 for a rejection,
+// 500 for anything else. Every route that runs the authenticator answers its
+// errors through here.
+func (h *HttpServer) writeAuthError(w http.ResponseWriter, r *http.Request, err error) {
+	// Not a rejection: the authority could not be reached. A 401 here
+	// tells every caller to re-authenticate against a service that is
+	// merely down, and invites them to negative-cache an outage.
+	var unavailable *AuthUnavailableError
+	if errors.As(err, &unavailable) {
+		slog.Warn("authentication unavailable", "err", err, "remote_addr", r.RemoteAddr)
+		w.Header().Set("Retry-After", strconv.Itoa(unavailable.retryAfterSeconds()))
+		http.Error(w, "authentication service unavailable", http.StatusServiceUnavailable)
+		return
+	}
+	var failure *AuthFailure
+	rpcErr, isRpc := err.(*RpcError)
+	if asAuthFailure(err, &failure) ||
+		(isRpc && (rpcErr.Type == "ValueError" || rpcErr.Type == "PermissionError")) {
+		reason, detail := classifyAuthError(err)
+		h.writeUnauthorized(w, r, reason, detail)
+	} else {
+		slog.Error("authenticate callback error", "err", err, "remote_addr", r.RemoteAddr)
+		http.Error(w, "Internal server error", http.StatusInternalServerError)
+	}
+}
+
+// isAuthRejection reports whether err is a definitive refusal of the
+// credential (the 401 arm of writeAuthError) rather than an outage or an
+// internal error.
+func isAuthRejection(err error) bool {
+	var unavailable *AuthUnavailableError
+	if errors.As(err, &unavailable) {
+		return false
+	}
+	var failure *AuthFailure
+	rpcErr, isRpc := err.(*RpcError)
+	return asAuthFailure(err, &failure) ||
+		(isRpc && (rpcErr.Type == "ValueError" || rpcErr.Type == "PermissionError"))
 }
 
 // ServeHTTP implements http.Handler.
